@@ -3,6 +3,7 @@
    OCaml driver only moves bytes. *)
 From BCL Require Import Model.DumpLoad Model.Lexer Model.Api.
 From BCL Require Spec.Format.
+From BCL Require Model.Proto.
 Open Scope N_scope.
 
 Definition sp : N := 32.
@@ -182,6 +183,61 @@ Definition suite_loadexec (c : bytes) : bytes :=
   | Panic k => bs "class=panic:" ++ panic_name k
   end.
 
+(* ---- ParseFile protocol: prediction of the final observables ---- *)
+(* lexer oracle for a chunk list: tokens emitted after receiving chunk i and before receiving chunk i+1,
+   and whether the lexer failed then.  Harness-level code (not part of the verified model): it steps the
+   model lexer and watches how many chunks are still pending. *)
+Fixpoint plan_loop (steps fuel : nat) (c : cur) (nchunks : nat) (acc : list (nat * bool)) (cur_n : nat)
+  : list (nat * bool) * nat :=
+  match steps with
+  | O => (rev acc, cur_n)
+  | S st =>
+    let before_pending := length (pending c) in
+    let '(go, c1) := lex_start fuel c in
+    let emitted := (length (out c1) - length (out c))%nat in
+    let consumed := (before_pending - length (pending c1))%nat in
+    (* close `consumed` plan entries: the first keeps the tokens counted so far, the others are empty *)
+    let acc1 := match consumed with
+                | O => acc
+                | S k => repeat (0%nat, false) k ++ (cur_n, false) :: acc
+                end in
+    let cur1 := match consumed with O => (cur_n + emitted)%nat | S _ => emitted end in
+    if go then plan_loop st fuel c1 nchunks acc1 cur1
+    else
+      let failed := match out c1 with t :: _ => tok_eqb (ttyp t) tFAIL | [] => false end in
+      if failed then (rev ((Nat.sub cur1 2, true) :: acc1), 0%nat)      (* tERR,tFAIL are the end marker *)
+      else (rev acc1, Nat.sub cur1 1)                                   (* tokens after the last chunk, before tEOF *)
+  end.
+Definition lex_plan (chunks : list bytes) : list (nat * bool) * nat :=
+  let n := S (S (total_len chunks)) in
+  (* the first entry produced belongs to "before any chunk": drop it *)
+  let '(pl, fin) := plan_loop n n (init_cur chunks) (length chunks) [] 0 in
+  (tl pl, fin).
+
+Definition rd_of (b : N) : Proto.rd :=
+  if b =? 100 then Proto.RdData else if b =? 122 then Proto.RdZero else if b =? 68 then Proto.RdDataEOF
+  else if b =? 101 then Proto.RdEOF else Proto.RdErr.       (* d z D e x *)
+Definition show_err (e : option Proto.err) : bytes :=
+  match e with
+  | Some Proto.ENone => bs "nil" | Some Proto.ERead => bs "read" | Some Proto.EParse => bs "parse" | None => bs "NORESULT"
+  end.
+(* proto: fields  script letters ; chunk1 ; chunk2 ; ...  (the chunks the reader would deliver, in order) *)
+Definition suite_proto (c : bytes) : bytes :=
+  match fields c with
+  | sc :: chunks =>
+    let script := map rd_of sc in
+    let '(plan, fin) := lex_plan chunks in
+    let pr := parse_chunks [] chunks in
+    let lexfail := existsb (fun x => snd x) plan in
+    let syn := negb (pr_ok pr) && negb lexfail in
+    let nd := length (pr_diags pr) in
+    let '(res, closes, reads, raf, fin_) := Proto.predict script plan fin syn nd in
+    bs "result=" ++ show_err res ++ bs " closes=" ++ dec_of_N (N.of_nat closes) ++ bs " reads=" ++ dec_of_N (N.of_nat reads)
+    ++ bs " raf=" ++ dec_of_N (N.of_nat raf) ++ bs " final=" ++ bs (if fin_ then "1" else "0")
+    ++ bs " lexfail=" ++ bs (if lexfail then "1" else "0")
+  | _ => bs "bad-case"
+  end.
+
 Definition run_suite (name : bytes) (c : bytes) : bytes :=
   if bytes_eqb name (bs "dump") then suite_dump c
   else if bytes_eqb name (bs "load") then suite_load c
@@ -194,4 +250,5 @@ Definition run_suite (name : bytes) (c : bytes) : bytes :=
   else if bytes_eqb name (bs "fmtdecode") then suite_fmtdecode c
   else if bytes_eqb name (bs "fmtencode") then suite_fmtencode c
   else if bytes_eqb name (bs "loadexec") then suite_loadexec c
+  else if bytes_eqb name (bs "proto") then suite_proto c
   else bs "unknown-suite".
